@@ -117,3 +117,112 @@ Proof.
   intros k Hk; split; [pose proof (L1 k Hk) as Q; unfold blen, zlen in Q; lia | reflexivity].
 Qed.
 
+
+Lemma filter_true : forall A (l : list A), filter (fun _ => true) l = l.
+Proof. induction l as [|a r IH]; cbn; [reflexivity | f_equal; exact IH]. Qed.
+
+Lemma buf_eq : forall b b' : buf, bdt b' = bdt b -> bdata b' = bdata b -> b' = b.
+Proof. intros [d1 v1] [d2 v2]; cbn; intros -> ->; reflexivity. Qed.
+
+(* copy(keep_fields): the copy holds exactly the kept columns of the origin (same values,
+   same dtypes, same order), in fresh locations *)
+Theorem copy_refines : forall s E a keep s' o',
+  repr s E a -> eqlen E a -> ctor_from s a keep [] [] = (s', Some o', Done) ->
+  repr s' E o' /\ names_of o' = filter (keepb keep) (names_of a)
+  /\ (names_of o' <> [] -> olen o' = olen a) /\ oidx o' = None
+  /\ (forall l, In l (obj_locs o') -> (length s <= l)%nat)
+  /\ exists ext, s' = s ++ ext.
+Proof.
+  intros s E a keep s' o' R L H. pose proof (ctor_from_spec s E a keep [] [] R L) as C. rewrite H in C.
+  destruct C as (_ & ext & C1 & C2 & C3 & C4 & C5 & C6 & C7 & C8).
+  destruct L as [L0 L1].
+  assert (Cols : forall k l', In (k, l') (fields o') -> rd s' l' = Some (E k)).
+  { intros k l' Hi. destruct (C5 k l' Hi) as (l & b & b' & Q1 & Q2 & Q3 & Q4 & Q5).
+    pose proof (r_cols _ _ _ R _ _ Q1) as Q6. rewrite Q6 in Q2; inversion Q2; subst b.
+    rewrite Q3; f_equal. apply buf_eq.
+    - rewrite Q5. destruct (mem k []); reflexivity.
+    - apply Q4. pose proof (L1 k (in_map fst _ _ Q1)) as Q7. unfold blen, zlen in Q7. cbn in Q7. lia. }
+  assert (Rn : repr s' E o').
+  { eapply repr_ext; [exact C3|]. intros k Hk. destruct (In_keys_assoc _ _ Hk) as [l' Hl'].
+    unfold Ecanon; rewrite Hl'. rewrite (Cols k l' (assoc_In _ _ _ Hl')). reflexivity. }
+  splits; auto.
+  - intros Hne. destruct C2 as (E2 & R2 & (M0 & M1)).
+    unfold names_of in Hne. destruct (keys (fields o')) as [|k0 r0] eqn:K; [exfalso; apply Hne; reflexivity|].
+    assert (Hk0 : In k0 (k0 :: r0)) by (left; reflexivity).
+    assert (Hk0' : In k0 (keys (fields o'))) by (rewrite K; left; reflexivity).
+    pose proof (M1 k0 Hk0) as Q. destruct (In_keys_assoc _ _ Hk0') as [l' Hl'].
+    pose proof (r_cols _ _ _ R2 _ _ (assoc_In _ _ _ Hl')) as Q2. rewrite (Cols _ _ (assoc_In _ _ _ Hl')) in Q2.
+    inversion Q2 as [Q3]. rewrite <- Q3 in Q. rewrite <- Q. apply L1. apply (C6 k0 Hk0).
+  - exists ext; assumption.
+Qed.
+
+Theorem select_refines : forall s E a sl s' o',
+  repr s E a -> eqlen E a -> get_selection s a sl = (s', Some o', Done) -> names_of a <> [] ->
+  exists E' ps, repr s' E' o' /\ names_of o' = names_of a /\ sel_pos (olen a) sl = Ok ps
+    /\ olen o' = Z.of_nat (length ps) /\ oidx o' = None
+    /\ (forall k, In k (names_of a) -> bdt (E' k) = bdt (E k) /\ gather (bdata (E k)) ps = Some (bdata (E' k)))
+    /\ abs E' (names_of a) (length ps) = t_take (abs E (names_of a) (Z.to_nat (olen a))) ps
+    /\ (forall l, In l (obj_locs o') -> (length s <= l)%nat).
+Proof.
+  intros s E a sl s' o' R [L0 L1] H Hne. unfold get_selection in H.
+  pose proof (sel_dict_spec s E a sl R) as S.
+  destruct (sloop (sel_one sl a) (fnl a) (s, [])) as [[s1 d] x].
+  destruct S as (ext & S1 & S2 & S3 & S4 & S5 & S6).
+  destruct x; try (inversion H; fail).
+  specialize (S6 eq_refl). rewrite (r_fnl _ _ _ R) in S6.
+  assert (Zl : forall k, In k (names_of a) -> zlen (bdata (E k)) = olen a) by (intros k Hk0; apply (L1 k Hk0)).
+  (* one position list for all columns *)
+  unfold names_of in *. destruct (keys (fields a)) as [|k0 rest] eqn:NA; [exfalso; apply Hne; reflexivity|]. clear Hne.
+  assert (Hk0 : In k0 (k0 :: rest)) by (left; reflexivity).
+  destruct d as [|[kd ld] dr]; [discriminate|]. cbn in S6. inversion S6 as [[Q1 Q2]]. subst kd.
+  destruct (S5 k0 ld (or_introl eq_refl)) as (_ & B0 & vs0 & T0).
+  destruct (np_take_inv _ _ _ T0) as [ps [P1 P2]]. rewrite (Zl k0 Hk0) in P1.
+  assert (Tk : forall k l, In (k, l) ((k0, ld) :: dr) -> exists vs, rd s1 l = Some (mkbuf (bdt (E k)) vs)
+              /\ gather (bdata (E k)) ps = Some vs /\ length vs = length ps /\ In k (k0 :: rest)).
+  { intros k l Hi. destruct (S5 k l Hi) as (Hin & B & vs & T). exists vs.
+    destruct (np_take_inv _ _ _ T) as [ps' [P1' P2']]. rewrite (Zl k Hin) in P1'. rewrite P1 in P1'; inversion P1'; subst ps'.
+    splits; auto; [unfold takebuf in B; rewrite T in B; exact B | eapply gather_length; eassumption]. }
+  destruct (Tk k0 ld (or_introl eq_refl)) as (vs00 & B00 & G00 & Ln00 & _).
+  unfold ctor_dict in H.
+  match type of H with (match ?X with _ => _ end) = _ =>
+    assert (DL : X = Some (blen (mkbuf (bdt (E k0)) vs00))) end.
+  { unfold dict_length. replace (dict_nonempty (zlen ((k0, ld) :: dr))) with true.
+    - rewrite B00; reflexivity.
+    - symmetry; apply K_dict_nonempty; unfold zlen; cbn [length]; lia. }
+  rewrite DL in H.
+  assert (Hsrc : forall k l, In (k, l) ((k0, ld) :: dr) -> exists b, rd s1 l = Some b).
+  { intros k l Hi; destruct (Tk k l Hi) as (vs & Q & _); eauto. }
+  assert (Hb : (length s <= length s1)%nat) by (subst s1; rewrite app_length; lia).
+  match type of H with ctor _ ?D ?N ?KP ?CV ?EX _ = _ =>
+    pose proof (ctor_spec s1 D N KP CV EX false (length s)
+                Hsrc S3 S2 Hb (fun _ l Hl => proj2 (S4 l Hl)) (fun _ _ => I)) as C end.
+  rewrite H in C. destruct C as (_ & e2 & C1 & C2 & C3 & C4 & C5 & C6 & C7 & C8).
+  assert (Nlen : Z.to_nat (blen (mkbuf (bdt (E k0)) vs00)) = length ps).
+  { unfold blen, zlen; cbn. lia. }
+  assert (Cols : forall k l', In (k, l') (fields o') -> exists vs, rd s' l' = Some (mkbuf (bdt (E k)) vs)
+              /\ gather (bdata (E k)) ps = Some vs /\ length vs = length ps).
+  { intros k l' Hi. destruct (C5 k l' Hi) as (l & b & b' & D1 & D2 & D3 & D4 & D5).
+    destruct (Tk k l D1) as (vs & T1 & T2 & T3 & T4). rewrite T1 in D2; inversion D2; subst b.
+    exists vs; splits; auto. rewrite D3; f_equal. apply buf_eq.
+    - rewrite D5. cbn. reflexivity.
+    - apply D4. cbn. lia. }
+  assert (Keys : keys (fields o') = k0 :: rest).
+  { rewrite C8. unfold keepb. rewrite filter_true. exact S6. }
+  exists (Ecanon s' (fields o')), ps.
+  assert (ColE : forall k, In k (k0 :: rest) -> bdt (Ecanon s' (fields o') k) = bdt (E k)
+                 /\ gather (bdata (E k)) ps = Some (bdata (Ecanon s' (fields o') k))).
+  { intros k Hk. rewrite <- Keys in Hk. destruct (In_keys_assoc _ _ Hk) as [l' Hl'].
+    destruct (Cols k l' (assoc_In _ _ _ Hl')) as (vs & V1 & V2 & V3).
+    unfold Ecanon; rewrite Hl', V1; cbn. split; [reflexivity | assumption]. }
+  splits; auto.
+  - rewrite Keys; congruence.
+  - destruct C2 as (E2 & R2 & (M0 & M1)).
+    assert (Hk : In k0 (keys (fields o'))) by (rewrite Keys; left; reflexivity).
+    pose proof (M1 k0 Hk) as W. destruct (In_keys_assoc _ _ Hk) as [l' Hl'].
+    pose proof (r_cols _ _ _ R2 _ _ (assoc_In _ _ _ Hl')) as W2.
+    destruct (Cols k0 l' (assoc_In _ _ _ Hl')) as (vs & V1 & V2 & V3). rewrite V1 in W2. inversion W2 as [W3].
+    rewrite <- W3 in W. unfold blen, zlen in W; cbn in W. lia.
+  - intros k Hk. apply ColE. rewrite <- S6; exact Hk.
+  - rewrite S6. apply take_refines; [|discriminate].
+    intros k Hk. split; [pose proof (Zl k Hk) as Q; unfold zlen in Q; lia | apply ColE; assumption].
+Qed.
